@@ -238,7 +238,7 @@ def r1_r2(L, repo):
                 L.require("C01.R1", F, cls + ".gen_msg", "%s: burst starts at octet HDR_LEN" % fn, hdr_len, burst_seg.off)
                 src = canon(dec.burst_src) if dec.burst_src is not None else None
                 L.require("C01.R1", F, cls + ".parse_msg", "%s: decoder takes the burst from octet HDR_LEN on" % fn,
-                          "memoryview(%s)[self.HDR_LEN:]" % msg, src)
+                          "memoryview(%s)[%d:]" % (msg, hdr_len), src.replace("[self.HDR_LEN:]", "[%d:]" % hdr_len) if src else src)
                 want_enc = "self.burst" if cls == "TxMsg" else "self.sbit2usbit(self.burst)"
                 # decided by folding the appended expression for bursts that carry every legal item value: hard bits go
                 # out as they are, soft bits s as the octet 127 - s, in order
